@@ -11,6 +11,7 @@
   calls neither changes that value nor lets it leave the target's range.
 -/
 import Gozod.Model.Coerce
+import Gozod.Proofs.C16
 
 namespace Gozod.C17
 open Gozod Gozod.Coerce
@@ -898,6 +899,65 @@ example : Coerce.exact (.int .i8) (.str seven) = none ∧
     parseCoerced (fun _ => []) (fun _ => []) (.int .i8) (.cmp .gte (.i 5)) (.str seven) = .ok (.int 7) ∧
     parseCoerced (fun _ => []) (fun _ => []) (.int .i8) (.cmp .gt (.i 7)) (.str seven) = .error .check := by
   refine ⟨rfl, ?_, ?_⟩ <;> decide
+
+/-- **C17 (schemas, every target).** Whatever a coercing schema returns for an input that is not
+    already of its type is the value `coerce.To[T]` produced for that input — nothing is changed
+    between coercion and validation — and that value satisfies the schema's check; if the
+    coercion fails, or the check fails on the coerced value, the schema fails. -/
+theorem c17_schema_sound (f g : F → List Nat) (t : Tgt) (c : Chk) (s : Src) (w : Val)
+    (hex : exact t s = none) :
+    parseCoerced f g t c s = .ok w ↔ (to f g t s = .ok w ∧ c.holds t w = true) := by
+  rw [c17_schema f g t c s hex]
+  cases hto : to f g t s with
+  | error e => simp [afterCoerce]
+  | ok v =>
+    simp only [afterCoerce, parsePlain]
+    by_cases hc : c.holds t v = true
+    · rw [if_pos hc]
+      constructor
+      · intro h; injection h with h; subst h; exact ⟨rfl, hc⟩
+      · intro ⟨h, _⟩; injection h with h; subst h; rfl
+    · rw [if_neg hc]
+      constructor
+      · intro h; cases h
+      · intro ⟨h, hw⟩; injection h with h; subst h; exact absurd hw hc
+
+/-- The bound check a coercing integer schema applies to the coerced value is the mathematical
+    comparison (C16's `c16_cmp`), so "validates the coerced value exactly as the non-coercing
+    schema" composes with C16: the verdict is `n op b` on the integers themselves. -/
+theorem c17_schema_check_exact (ty : IntTy) (op : CmpOp) (b n : Int) (hn : ty.inRange n)
+    (hb : IntTy.i64.inRange b) :
+    (Chk.cmp op (Num.ofInt .i64 b)).holds (.int ty) (.int n) = op.holdsInt n b := by
+  simp only [Chk.holds, Val.num]
+  exact C16.c16_int_cmp op ty .i64 n b hn hb
+
+/-- Integer sources into integer targets: the conversion succeeds exactly when the value is in
+    the target's range — except that `uint`/`uint64` values above MaxInt64 always fail (the
+    intermediate is an int64): the only spurious failures for integer sources. -/
+theorem toInteger_int_iff (t t' : IntTy) (v : Int) (hv : t'.inRange v) :
+    toInteger t (.int t' v) = .ok v ↔ (t.inRange v ∧ v ≤ 2 ^ 63 - 1) := by
+  have h64 : toInt64 (.int t' v) = if v ≤ 2 ^ 63 - 1 then .ok v else .error .overflow := by
+    by_cases hle : v ≤ 2 ^ 63 - 1
+    · rw [if_pos hle]
+      cases t' <;> simp only [toInt64, intToInt64] <;> rw [if_neg (by omega)]
+    · rw [if_neg hle]
+      cases t' <;> simp [IntTy.inRange, IntTy.lo, IntTy.hi, IntTy.signed, IntTy.bits] at hv <;>
+        first | omega | (simp only [toInt64, intToInt64]; rw [if_pos (by omega)])
+  have hlo : -(2 ^ 63) ≤ v := by
+    cases t' <;> simp [IntTy.inRange, IntTy.lo, IntTy.hi, IntTy.signed, IntTy.bits] at hv <;> omega
+  clear hv
+  rw [toInteger_nonbool t _ (by intro b h; cases h), h64]
+  by_cases hle : v ≤ 2 ^ 63 - 1
+  · rw [if_pos hle]
+    simp only [bind, Except.bind]
+    cases t <;> simp only [checkBounds, IntTy.inRange, IntTy.lo, IntTy.hi, IntTy.signed, IntTy.bits,
+        Bool.false_eq_true, ↓reduceIte] <;>
+      (repeat' split) <;> simp <;> omega
+  · rw [if_neg hle]
+    simp only [bind, Except.bind]
+    constructor
+    · intro h; cases h
+    · intro ⟨_, h⟩; exact absurd h hle
 
 /-! ## known finding `complex-magnitude` (full statement, partial theorem, witness) -/
 
